@@ -28,6 +28,20 @@ pub struct ReloadPlan {
     pub to_add: Vec<PathBuf>,
 }
 
+/// Return the page aligned address of the lowest loadable segment of an object file.
+fn lowest_segment_address(path: &Path) -> Option<usize> {
+    use object::{Object, ObjectSegment};
+
+    let file = std::fs::File::open(path).ok()?;
+    let mmap = unsafe { memmap2::Mmap::map(&file).ok()? };
+    let object = object::File::parse(&*mmap).ok()?;
+    object
+        .segments()
+        .map(|segment| segment.address() as usize)
+        .min()
+        .map(|address| address & !0xfff)
+}
+
 /// Registry contains debug information about main executable object and loaded shared libraries.
 pub struct DwarfRegistry {
     /// process pid
@@ -112,7 +126,13 @@ impl DwarfRegistry {
                 .max_by(|map1, map2| map1.start().cmp(&map2.start()))
                 .expect("at least one mapping must exists");
 
-            let mapping = lower_sect.start();
+            // The offset is what must be added to an address in the object file to get the
+            // address in memory: the start of the lowest mapping for a position independent
+            // object (its segments are linked at zero), and zero for a classic executable
+            // whose segments are linked at their absolute addresses.
+            let mapping = lower_sect
+                .start()
+                .saturating_sub(lowest_segment_address(absolute_debugee_path).unwrap_or(0));
 
             let range = RegionRange {
                 from: RelocatedAddress::from(lower_sect.start()),
